@@ -267,10 +267,25 @@ def _one(rng, target, mon, sigs, hist, metrics):
             if mp is None or mp.get(a) != s.rs[max(ti, tn)].jmap[j]:
                 bad_track = True
         if bad_track:
+            # every consecutive pair of this series is inside the tracking bounds (checked above with a safety factor), and no
+            # vertex disappears: a wrong correspondence makes the inference wrong
+            mon.fail("tracking-wrong", "junctions of a series inside the motion bounds are followed to their true successors "
+                     "(pre-condition of the velocity term)", target=target, frames=nfr, ti=ti)
             hist["tracking-wrong"] = hist.get("tracking-wrong", 0) + 1
             return
         CTX["cur"] = cur = {"at": at, "r": r_t, "T": T, "F": F, "method": method, "ikeys": ikeys, "target": target, "fit": fit}
         try:
+            if nfr > 2 and rng.random() < 0.5:
+                # users infer several frames on one object: an earlier dynamic solve of ANOTHER frame must not matter
+                CTX["cur"] = None
+                other = [t_ for t_ in range(nfr) if t_ != ti][int(rng.integers(nfr - 1))]
+                try:
+                    solver.build_force_matrix(when=other)
+                    solver.solve_stress(when=other, b_matrix="velocity")
+                except Exception:
+                    pass
+                CTX["cur"] = cur
+                hist["other-frame-solved-first"] = hist.get("other-frame-solved-first", 0) + 1
             solver.build_force_matrix(when=ti, circle_fit_method=fit)
             kw = {} if method is None else {"method": method}
             solver.solve_stress(when=ti, b_matrix="velocity", allow_negatives=False, **kw)
